@@ -56,6 +56,17 @@ def check_component(c, rng):
     dq = (q(t0 + h, t1) - q(t0 - h, t1)) / (2 * h)
     if not rel_close(dq, c.get_specific_heat(t0), 1e-5, 1e-6 * scale):
         return False, 'd(cooling)/dt0 = %r but Cp = %r' % (dq, c.get_specific_heat(t0)), {'t0': t0, 't1': t1}
+    # narrow intervals (the property holds for EVERY pair of temperatures, not only process-scale differences)
+    d1, d2 = 10 ** rng.uniform(-6, 0), 10 ** rng.uniform(-6, 0)
+    a, b, cc = t0, t0 + d1, t0 + d1 + d2
+    tolr = 1e-11 * scale
+    if abs(q(b, a) + q(cc, b) - q(cc, a)) > tolr:
+        return False, 'not additive on narrow adjacent intervals: Q(%r,%r)+Q(%r,%r) = %r, Q(%r,%r) = %r' % (b, a, cc, b, q(b, a) + q(cc, b), cc, a, q(cc, a)), {'t0': a, 't1': b, 't2': cc}
+    mid = simpson(c.get_specific_heat, a, b)      # exact for the cubic Cp polynomial
+    if abs(q(b, a) - mid) > 1e-9 * abs(mid) + tolr:
+        return False, 'cooling heat over the narrow interval [%r, %r] is %r, the integral of Cp is %r' % (a, b, q(b, a), mid), {'t0': a, 't1': b}
+    if abs(q(b, a) + q(a, b)) > tolr:
+        return False, 'not antisymmetric on a narrow interval', {'t0': a, 't1': b}
     return True, '', {}
 
 
